@@ -206,8 +206,8 @@ func channelsEqual(x, y any) error {
 		return errorf("Channel(s) invalid")
 	}
 
-	xfk := xft.Kind()
-	yfk := yft.Kind()
+	xfk := xfv.Kind()
+	yfk := yfv.Kind()
 
 	if xfk != reflect.Chan || yfk != reflect.Chan {
 		return errorf("Channel kind mismatch")
@@ -230,11 +230,11 @@ func functionsEqual(x, y any) error {
 		return errorf("Nil functions incomparable")
 	}
 
-	xft, _ := assertReflect(x)
-	yft, _ := assertReflect(y)
+	xft, xfv := assertReflect(x)
+	yft, yfv := assertReflect(y)
 
-	xfk := xft.Kind()
-	yfk := yft.Kind()
+	xfk := xfv.Kind()
+	yfk := yfv.Kind()
 
 	if xfk != reflect.Func || yfk != reflect.Func {
 		return errorf("Function kind mismatch")
